@@ -166,7 +166,54 @@ pub fn pad_last_inner_item(bytes: &[u8], pad: &[u8]) -> Option<Vec<u8>> {
     Some(out)
 }
 
+/// SCALE for C12 (implementation only, cheapest group): vectors beyond every plausible block size round-trip
+/// exactly through every vector wire type, and vectors differing only in the LAST item encode differently
+fn scale_c12<C: NatCtx>(v: &mut Env<C>) {
+    if !(v.small && v.p == big(23)) {
+        return;
+    }
+    let quick = v.h.tier == Tier::Quick;
+    let ctx = v.ctx.clone();
+    let tok = v.tok.clone();
+    let key = PrivateKey::from(&v.x(&big(3)), &ctx);
+    for nn in if quick { vec![4097usize, 70001] } else { vec![257, 1025, 4097, 16385, 65537, 70001, 150000] } {
+        strand::verif_hooks::load_exp_tape(vec![]);
+        let es: Vec<BigUint> = (0..nn).map(|_| v.rnd_member()).collect();
+        let xs: Vec<BigUint> = (0..nn).map(|_| v.rnd_exp()).collect();
+        let ee: Vec<C::E> = es.iter().map(C::e_raw).collect();
+        let xe: Vec<C::X> = xs.iter().map(C::x_raw).collect();
+        let pe: Vec<C::P> = xs.iter().map(C::p_raw).collect();
+        let cts: Vec<Ciphertext<C>> = ee.iter().map(|m| key.get_pk().encrypt(m)).collect();
+        let mut check = |what: &str, ok: bool| v.h.check(ok, || format!("{} of {} items does not round-trip / is not injective in its last item on {}", what, nn, tok));
+        let b1 = StrandVectorE::<C>(ee.clone()).strand_serialize().unwrap();
+        check("StrandVectorE", StrandVectorE::<C>::strand_deserialize(&b1).map(|x| x.0 == ee).unwrap_or(false));
+        let mut e2 = ee.clone();
+        e2[nn - 1] = C::e_raw(&((&es[nn - 1] * &v.g) % &v.p));
+        check("StrandVectorE (last item changed)", StrandVectorE::<C>(e2).strand_serialize().unwrap() != b1);
+        let b1 = ee.strand_serialize().unwrap();
+        check("Vec<E>", Vec::<C::E>::strand_deserialize(&b1).map(|x| x == ee).unwrap_or(false));
+        let b1 = StrandVectorX::<C>(xe.clone()).strand_serialize().unwrap();
+        check("StrandVectorX", StrandVectorX::<C>::strand_deserialize(&b1).map(|x| x.0 == xe).unwrap_or(false));
+        let b1 = StrandVectorP::<C>(pe.clone()).strand_serialize().unwrap();
+        check("StrandVectorP", StrandVectorP::<C>::strand_deserialize(&b1).map(|x| x.0.iter().map(C::p_val).collect::<Vec<_>>() == xs).unwrap_or(false));
+        let b1 = StrandVectorC::<C>(cts.clone()).strand_serialize().unwrap();
+        check("StrandVectorC", StrandVectorC::<C>::strand_deserialize(&b1).map(|x| x.0 == cts).unwrap_or(false));
+        let mut c2 = cts.clone();
+        c2[nn - 1] = Ciphertext { mhr: c2[nn - 1].gr.clone(), gr: c2[nn - 1].mhr.clone() };
+        check("StrandVectorC (last item changed)", c2[nn - 1] == cts[nn - 1] || StrandVectorC::<C>(c2).strand_serialize().unwrap() != b1);
+        let b1 = cts.strand_serialize().unwrap();
+        check("Vec<Ciphertext>", Vec::<Ciphertext<C>>::strand_deserialize(&b1).map(|x| x == cts).unwrap_or(false));
+        if nn <= 20000 {
+            let cps: Vec<ChaumPedersen<C>> = cts.iter().take(nn).map(|c| key.decrypt_and_prove(c, b"").unwrap().1).collect();
+            let items: Vec<Vec<u8>> = cps.iter().map(|c| c.strand_serialize().unwrap()).collect();
+            let b1 = StrandVectorCP::<C>(cps).strand_serialize().unwrap();
+            check("StrandVectorCP", StrandVectorCP::<C>::strand_deserialize(&b1).map(|x| x.0.len() == nn && x.0.iter().zip(items.iter()).all(|(a, b_)| a.strand_serialize().unwrap() == *b_)).unwrap_or(false));
+        }
+    }
+}
+
 pub fn run_c12<C: NatCtx>(v: &mut Env<C>) {
+    scale_c12(v);
     let quick = v.h.tier == Tier::Quick;
     let reps = if v.small { if quick { 8 } else { 40 } } else if quick { 2 } else { 8 };
     let tok = v.tok.clone();
